@@ -9,3 +9,22 @@ ASSUMPTIONS = ["module import has no side effect other than success/ImportError"
 TECHNIQUE = "contract-based deductive verification (pyvc): VCs from the AST of the real configuration/dispatch code over SMT strings and symbolic importability/environment maps, discharged by z3"
 LEVEL_TEXT = "proof: decision logic over all strings, all importability combinations and all environments; every obligation discharged"
 LEVEL_NOTE = "trusted: the modelling of import, os.environ.get and str.lower; z3"
+
+
+def bounded(tier, seed, rep):
+    from bounded import routes
+    routes.run(rep)
+
+
+def replay(payload):
+    from pyvc.runner import Report
+    from bounded import routes
+    rep = Report("C20", "quick", 0, "proof")
+    routes.run(rep)
+    for v in rep.violations:
+        print("still fails:", v["signature"], v["detail"][:200])
+    return 1 if rep.violations else 0
+
+
+RULE = RULE + ("; encoding routes: every emitter with a native and an auxiliary route on the real library x explicit argument None / True / False x the four "
+               "configuration-flag combinations, the posted constraints inspected for GRAPH_* operator nodes (bounded/routes.py)")
